@@ -480,6 +480,10 @@ func (w *World) Step(no int, st Step, b *Behaviour) error {
 		if optBool(st.Opt, "pushonly") {
 			opt = opt.WithPushOnly()
 		}
+		fault := optStr(st.Opt, "fault")
+		if fault != "" {
+			w.FaultDB().Arm(fault)
+		}
 		var err error
 		func() {
 			defer func() {
@@ -492,6 +496,10 @@ func (w *World) Step(no int, st Step, b *Behaviour) error {
 		ev["ev"] = "Sync"
 		ev["pushonly"] = optBool(st.Opt, "pushonly")
 		ev["ok"], ev["err"] = err == nil, errClass(err)
+		ev["fault"], ev["fired"] = fault, false
+		if fault != "" {
+			ev["fired"] = !w.FaultDB().Disarm()
+		}
 	case "detach":
 		if !precond(c != nil && rep != nil && rep.D.Status() == document.StatusAttached, "not attached") {
 			return nil
@@ -635,4 +643,15 @@ func SnapshotRoundTrip(doc *document.InternalDocument) (ok bool, content string,
 		return false, "", 0, err.Error()
 	}
 	return true, obj.Marshal(), crdt.NewRoot(obj).GarbageLen(), ""
+}
+
+
+// FaultDB installs (once) and returns the fault-injecting database decorator.
+func (w *World) FaultDB() *FaultDB {
+	if f, ok := w.S.Be.DB.(*FaultDB); ok {
+		return f
+	}
+	f := &FaultDB{Database: w.S.Be.DB}
+	w.S.Be.DB = f
+	return f
 }
